@@ -39,6 +39,7 @@ struct RuleSpec {
   std::vector<Disc> disc;
   unsigned collapse = 0;  // 0: none; else value hash is reduced modulo this
   unsigned pad = 0;       // value prefix length
+  bool empty = false;     // the computed value is the empty byte string whatever the inputs are
   bool force = false;     // complete(..., forceChange=true)
   int mode = 0;           // 0 sync, 1 queue job, 2 harness thread
   unsigned delayUs = 0;
